@@ -10,7 +10,11 @@ import (
 
 func init() {
 	drivers["C03"] = func(c *ctxT) { runKe(c, true) }
-	drivers["C02"] = func(c *ctxT) { runKe(c, false) }
+	drivers["C02"] = func(c *ctxT) {
+		runKe(c, false)
+		// the same property one level up: what a Channel hands to the application comes from the key it is bound to
+		runC05n(c, c.scale(60, 1500))
+	}
 }
 
 // isData reports whether emitted message j is an application ciphertext
@@ -122,8 +126,8 @@ func keSplice(c *ctxT, r *gen.R) {
 // adversary as responder towards an honest initiator
 func keForgeResp(c *ctxT, r *gen.R) {
 	e := newKeEnv(r)
-	ini := e.newSession(true, 1)      // message 0
-	other := e.newSession(true, 2)    // message 1: an InitHello by the victim key 2 (source of its timestamp signature)
+	ini := e.newSession(true, 1)   // message 0
+	other := e.newSession(true, 2) // message 1: an InitHello by the victim key 2 (source of its timestamp signature)
 	_ = other
 	a := 901
 	k, kind, x := 2, 1, 50
